@@ -1,7 +1,7 @@
 CONFIG = dict(
     props=["DhcpProofs.Props.C03"],
     facts=["DhcpProofs.Facts.C03Observe"],
-    streams=[("v4dec", 4000, 30000), ("v6dec", 6000, 40000), ("c03x", 12000, 120000), ("lexer", 3000, 60000)],
+    streams=[("v4dec", 4000, 30000), ("v6dec", 6000, 40000), ("c03x", 12000, 120000), ("lexer", 3000, 60000), ("v6acc", 6000, 100000)],
     oracles=[("c03", 40000, 1200000)],
     full_statement_proved=False,
     missing=("Proved for the model: no panic in dhcpv4.FromBytes, dhcpv4.Options.FromBytes, dhcpv6.FromBytes/MessageFromBytes/"
@@ -16,23 +16,26 @@ CONFIG = dict(
              "ztpv6.ParseVendorData on decoded messages, GetNetConfFromPacketv4 / ConversationToNetconfv4 and "
              "ztpv4.ParseVendorData / parseClassIdentifier / parseVIVC (every option map), the three DHCPv4 typed accessors "
              "whose model has a failure outcome (DomainSearch, MaxMessageSize, AutoConfigure; the other 26 are total functions "
-             "into panic-free types), re-encoding of decoded DHCPv6 messages (the only panic path, an embedded DHCPv4 message "
+             "into panic-free types), every one of the 39 typed accessor methods of the DHCPv6 option sets (MessageOptions, "
+             "RelayOptions, IdentityOptions, AddressOptions, PDOptions, PrefixOptions, FourRDOptions; Dhcp/V6/Access.lean) on the "
+             "message's own option set and on every option set nested in it at any depth (C03_v6_accessors_decoded; "
+             "C03_v6_checked_accessors_total: the 28 accessors with a checked assertion are total on every value; "
+             "C03_v6_accessors_counterexample: the 11 unchecked ones panic on a hand-built OptionGeneric carrying their code), "
+             "re-encoding of decoded DHCPv6 messages (the only panic path, an embedded DHCPv4 message "
              "with a non-IPv4 header address, is excluded for decoded messages); where the statement needs decodedness a "
              "hand-built counterexample is proved (C03_extractMAC_counterexample, C03_conversationToNetconf_counterexample, "
              "C03_ztp6_parseVendorData_counterexample, C03_reencode6_counterexample). "
              "NOT proved here: String/Summary/LongString (formatting goes through fmt); the regular expressions of "
              "ztpv4.ParseCircuitID (11) and ztpv6.ParseRemoteID (2) are abstracted as a total matcher (both functions are proved "
              "panic-free for every such matcher; Go's regexp is trusted; stream c03x runs ParseRemoteID against a hand-written "
-             "matcher, ParseCircuitID is only crash-searched); DHCPv4 builders (C15); the DHCPv6 typed accessors other than those "
-             "the observers above go through (ClientID, IANA/OneIANA, Addresses, DNS, DomainSearchList, NTPServers, BootFileURL, "
-             "BootFileParam, RelayMessage, InterfaceID, RemoteID, ClientLinkLayerAddress); architecture lists as such (iana.Archs."
+             "matcher, ParseCircuitID is only crash-searched); DHCPv4 builders (C15); architecture lists as such (iana.Archs."
              "FromBytes is part of both decoder models - DHCPv4 ClientArch accessor, DHCPv6 option 61 - but Archs.String and a "
              "standalone entry point are not stated here); the "
              "interface-dependent helpers (GetLinkLocalAddr/GetGlobalAddr, RequestNetbootv4/v6, IfUp, ConfigureInterface: they "
              "talk to the kernel, not to a decoded value) - for all of those the assurance in C03 is the crash search of oracle "
              "c03 on the real code (testing, not proof). The search is mutation-based with behaviour-novelty feedback, not "
              "coverage-guided (no instrumentation in-process)."),
-    rule=("lexer: programs of 1..10 reads (Read8/16/32/64, Consume, CopyN, ReadBytes, ReadAll, Has, Len, Error, FinError; lengths around what is left, zero, far too much) on buffers of 0..40 bytes run on the real uio.Lexer and on its model lean/Dhcp/Go/Lexer.lean - the dependency every decoder and every decoder model reads through (thorough: every program of up to 3 operations over a 13-operation alphabet on buffers of 0..5 bytes); streams v4dec/v6dec: ok/err/panic verdict of the Go decoders vs the Lean model on valid, truncated, length-perturbed and "
+    rule=("v6acc: every accessor method of the seven DHCPv6 option-set types on generated, wire-tripped and hand-built messages (an OptionGeneric under a code of the parser table inserted at some level), on the message's own option set or a nested one chosen by path, result compared with the model as a term (ok <value> / panic / badtype); lexer: programs of 1..10 reads (Read8/16/32/64, Consume, CopyN, ReadBytes, ReadAll, Has, Len, Error, FinError; lengths around what is left, zero, far too much) on buffers of 0..40 bytes run on the real uio.Lexer and on its model lean/Dhcp/Go/Lexer.lean - the dependency every decoder and every decoder model reads through (thorough: every program of up to 3 operations over a 13-operation alphabet on buffers of 0..5 bytes); streams v4dec/v6dec: ok/err/panic verdict of the Go decoders vs the Lean model on valid, truncated, length-perturbed and "
           "random inputs. stream c03x: every op line carries wire bytes; both sides decode them and call the observer on the "
           "decoded value; verdict AND returned value (canonical text) are compared: DecapsulateRelay, DecapsulateRelayIndex "
           "(relay chains of depth 0..8, thorough to 40, built by hand with and without a relay-message option, generic/duplicated "
@@ -66,7 +69,7 @@ CONFIG = dict(
 )
 
 MANIFEST = dict(
-    text="Machine-checked theorems (Lean 4) for all byte strings, no length bound: the models of dhcpv4.FromBytes, dhcpv4.Options.FromBytes, dhcpv6.FromBytes, MessageFromBytes, RelayMessageFromBytes, ParseOption (all 32 option types at any nesting depth), Options.FromBytes and DUIDFromBytes never reach a panic guard (C03_dec4, C03_optsFromBytes, C03_dec6, C03_decMessage, C03_decRelay, C03_parseOption, C03_decOpts6, C03_decDUID, C03_labelFromBytes; C03_rawRead, C03_labelToBytes and C03_v6_builders_decoded restated from C18/C19/C16), decoded DHCPv4 packets always re-encode (C03_enc_decoded), and all of them terminate: structural recursion on fuel, with the out-of-fuel branches proved unreachable (C03_optsLoop_fuel, C03_dec6_fuel, C03_parseOption_fuel, C03_decOpts6_fuel, C03_v6_loops_fuel, C03_label_terminates). Read-only use of decoded values: DecapsulateRelay / DecapsulateRelayIndex never panic for any message value and any index, and the level returned is characterised for chains and broken chains (C03_decapsulateRelayIndex, _chain, _broken, C03_relay_chain_or_broken, C03_lastRelay_fuel); GetMacAddressFromEUI64 panics exactly on 4-byte addresses (C03_getMac_panic_iff), never on a decoded address field; ExtractMAC, netboot.GetNetConfFromPacketv6 and ConversationToNetconf (every list of decoded messages, any length), ztpv6.ParseVendorData and DHCPv6 re-encoding do not panic on decoded messages (C03_extractMAC, C03_getNetConfFromPacketv6, C03_conversationToNetconf, C03_ztp6_parseVendorData, C03_reencode6), each with a machine-checked hand-built counterexample showing that decodedness is needed (C03_*_counterexample); ztpv6.ParseRemoteID, ztpv4.ParseVendorData / parseClassIdentifier / parseVIVC / ParseCircuitID, netboot.GetNetConfFromPacketv4 / ConversationToNetconfv4 and the DHCPv4 typed accessors do not panic for any option map (C03_ztp6_parseRemoteID, C03_ztp4_parseVendorData, C03_ztp4_parseCircuitID, C03_getNetConfFromPacketv4, C03_conversationToNetconfv4, C03_v4_accessors), regular expressions abstracted as an arbitrary total matcher. PARTIAL: String/Summary/LongString, the regular expressions themselves, the DHCPv4 builders, the remaining DHCPv6 typed accessors and architecture lists are not proved in this check; for them, and for the real code as a whole, the evidence is an implementation-level crash search (recover + watchdog around every entry point and about 420 reflected methods and helpers, structure-aware mutation, sizes up to 65507 bytes, all netboot conversations of up to 4 messages) - testing, stated as such in the evidence (full_statement_proved=false). Tie: v4dec/v6dec differential streams (ok/err/panic verdicts), the c03x stream (observers run on decoded values in the real code and in the model, verdict and value compared), fact obligations regenerated from the ZTP/netboot sources, and a regenerated go/ssa inventory of panic-capable instructions that steers the search budget.",
+    text="Machine-checked theorems (Lean 4) for all byte strings, no length bound: the models of dhcpv4.FromBytes, dhcpv4.Options.FromBytes, dhcpv6.FromBytes, MessageFromBytes, RelayMessageFromBytes, ParseOption (all 32 option types at any nesting depth), Options.FromBytes and DUIDFromBytes never reach a panic guard (C03_dec4, C03_optsFromBytes, C03_dec6, C03_decMessage, C03_decRelay, C03_parseOption, C03_decOpts6, C03_decDUID, C03_labelFromBytes; C03_rawRead, C03_labelToBytes and C03_v6_builders_decoded restated from C18/C19/C16), decoded DHCPv4 packets always re-encode (C03_enc_decoded), and all of them terminate: structural recursion on fuel, with the out-of-fuel branches proved unreachable (C03_optsLoop_fuel, C03_dec6_fuel, C03_parseOption_fuel, C03_decOpts6_fuel, C03_v6_loops_fuel, C03_label_terminates). Read-only use of decoded values: DecapsulateRelay / DecapsulateRelayIndex never panic for any message value and any index, and the level returned is characterised for chains and broken chains (C03_decapsulateRelayIndex, _chain, _broken, C03_relay_chain_or_broken, C03_lastRelay_fuel); GetMacAddressFromEUI64 panics exactly on 4-byte addresses (C03_getMac_panic_iff), never on a decoded address field; ExtractMAC, netboot.GetNetConfFromPacketv6 and ConversationToNetconf (every list of decoded messages, any length), ztpv6.ParseVendorData and DHCPv6 re-encoding do not panic on decoded messages (C03_extractMAC, C03_getNetConfFromPacketv6, C03_conversationToNetconf, C03_ztp6_parseVendorData, C03_reencode6), each with a machine-checked hand-built counterexample showing that decodedness is needed (C03_*_counterexample); ztpv6.ParseRemoteID, ztpv4.ParseVendorData / parseClassIdentifier / parseVIVC / ParseCircuitID, netboot.GetNetConfFromPacketv4 / ConversationToNetconfv4 and the DHCPv4 typed accessors do not panic for any option map (C03_ztp6_parseRemoteID, C03_ztp4_parseVendorData, C03_ztp4_parseCircuitID, C03_getNetConfFromPacketv4, C03_conversationToNetconfv4, C03_v4_accessors), regular expressions abstracted as an arbitrary total matcher. PARTIAL: String/Summary/LongString, the regular expressions themselves, the DHCPv4 builders, the remaining DHCPv6 typed accessors and architecture lists are not proved in this check; for them, and for the real code as a whole, the evidence is an implementation-level crash search (recover + watchdog around every entry point and about 420 reflected methods and helpers, structure-aware mutation, sizes up to 65507 bytes, all netboot conversations of up to 4 messages) - testing, stated as such in the evidence (full_statement_proved=false). Tie: v4dec/v6dec differential streams (ok/err/panic verdicts), the c03x stream (observers run on decoded values in the real code and in the model, verdict and value compared), fact obligations regenerated from the ZTP/netboot sources, and a regenerated go/ssa inventory of panic-capable instructions that steers the search budget. All 39 typed accessor methods of the DHCPv6 option sets, on the message's own option set and on every nested one at any depth, are proved panic-free on decoded messages (C03_v6_accessors_decoded), with the hand-built counterexample for the 11 accessors whose type assertion is unchecked; stream v6acc ties the accessor model to the code.",
     design_ref="DESIGN.md section 6 C03",
     note=NOTE_COMMON + "The crash search is bounded testing; a panic reachable only through inputs the mutators cannot produce would be missed. Go runtime fatal errors (stack exhaustion, out of memory) abort the oracle and are reported as a broken oracle, not as a classified failure.",
     technique="Lean 4 proof (induction on fuel: no decoder branch returns panic) + model/code correspondence + implementation-level crash search under recover/watchdog steered by a go/ssa panic-site inventory",
